@@ -229,6 +229,11 @@ func buildVersion(v, perm int) *migProfile {
 		errors.RegisterTypeMigration(gen.MigPkgPath, "*gen.XFooP", gen.XBarV{})
 		errors.RegisterTypeMigration(gen.MigPkgPath, "gen.XFooV", &gen.XBarP{})
 		errors.RegisterTypeMigration(gen.MigPkgPath, "*gen.FooMulti", &gen.BarMulti{})
+		errors.RegisterTypeMigration("io/fs", "*fs.PathError", &gen.XPathErr{})
+		if k := errors.GetTypeKey(&gen.XPathErr{}); string(k) != "os/*os.PathError" {
+			mp.problems = append(mp.problems, Violation{Prop: "C17", Oracle: "key-of-newest-name", Culprit: "RegisterTypeMigration", Config: "form=rename-of-builtin-rename",
+				Expected: "os/*os.PathError", Observed: string(k), Where: versionNames[v]})
+		}
 		errors.RegisterTypeMigration(gen.MigPkgPath, "gen.XOldCode", gen.XCode(0))
 		errors.RegisterLeafDecoder(errors.GetTypeKey(gen.XCode(0)), func(_ context.Context, msg string, _ []string, _ proto.Message) error {
 			var n int
